@@ -1012,6 +1012,27 @@ def r17_2_class(ctx, rd, mrec, skey, member_fn):
 def r17_2_primitives(ctx):
     R = ctx.R
     duke = ctx.duke
+    # the public entry points hand the caller's own stream to the reader: a buffering adaptor around it (BufReader) reads ahead, and after
+    # a read that does not end in a seek the caller's stream is left past the end of the class file (seed C17-13)
+    for key in ("duke::read_class_multi", "duke::read_class"):
+        eb = duke.body(key)
+        if not R.anchor("R17.2", "fn %s" % key, eb):
+            continue
+        pid = H.param_ids(eb)[0] if H.param_ids(eb) else None
+        calls = [n for n in H.walk(eb["body"]) if n.get("k") == "call" and (
+            ((n.get("callee") or {}).get("path") or "").endswith(("class_reader::read", "::read_class_multi")))]
+        bad = []
+        for n in calls:
+            a = H.peel(n["args"][0]) if n.get("args") else {}
+            l = H.local_of(a)
+            if not (l and pid is not None and (l[0] == pid or (H.let_init_of(eb["body"], l[0]) is not None
+                                                           and H.local_of(H.peel(H.let_init_of(eb["body"], l[0]))) and H.local_of(H.peel(H.let_init_of(eb["body"], l[0])))[0] == pid))):
+                init = H.let_init_of(eb["body"], l[0]) if l else None
+                bad.append("the reader is given `%s`%s" % (H.render(n["args"][0])[:60] if n.get("args") else "?", (" = " + H.render(init)[:60]) if init is not None else ""))
+        R.inst("R17.2", "entry:%s:reads-the-callers-stream" % key.rsplit("::", 1)[-1], len(calls) == 1 and not bad, sp=eb["sp"],
+               expect="class_reader::read(<the `reader` parameter itself>, ..)", got=bad or "%d call(s)" % len(calls),
+               detail="`a read consumes exactly the bytes of one class file`: every byte taken from the caller's stream is taken by the reader's own "
+                      "read/seek calls, which the path rules account for")
     wp = duke.body("duke::ClassRead::with_pos")
     if R.anchor("R17.2", "fn ClassRead::with_pos", wp):
         ids = H.param_ids(wp)
